@@ -668,14 +668,19 @@ def c01_6(ctx: Ctx) -> RuleResult:
             if r is None or fn is None or r[0] != "call":
                 continue
             rk = dict(r[3])
+            if fn[0] == "item":
+                # `failed, functions = self._gate(...)`: the value computed inside the private helper
+                fn = X.force_inline(fn, m, effects=True)
             used = [a for _c, a in guard_leaves(fn, strip_wrappers=False) if a[0] == "call"]
             if not used:
                 continue
             n += 1
             u = used[0]
             uargs = list(u[2]) + [v_ for _k, v_ in u[3]]
+            from .common import values_agree
+
             for name in ("failed_realizations", "objective_weights", "constraint_weights"):
-                ok = name in rk and rk[name] in uargs
+                ok = name in rk and (rk[name] in uargs or values_agree(ctx, m, rk[name], uargs))
                 res.add(m, call_, f"Realizations.{name} is the value passed to the function computation of the same result", ok,
                         "" if ok else f"reported `{name}` (`{show(rk.get(name, ('const', None)), 50)}`) is not among the arguments the functions were computed with",
                         construct=f"{m.name}: reported {name}")
